@@ -468,6 +468,18 @@ def ignore_read(alignment, tag_supplementary):
     return ignore
 
 
+def overlaps_any_region(alignment, regions: Sequence[Tuple[int, Optional[int]]]) -> bool:
+    """Return whether the alignment overlaps one of the given (start, end) regions of its contig"""
+    aln_start = alignment.reference_start
+    aln_end = alignment.reference_end
+    if aln_end is None or aln_end <= aln_start:
+        aln_end = aln_start + 1
+    for start, end in regions:
+        if aln_end > start and (end is None or aln_start < end):
+            return True
+    return False
+
+
 def contigs_with_alignments(af: pysam.AlignmentFile) -> FrozenSet[str]:
     has_alignments = []
     for contig in af.references:
@@ -613,9 +625,13 @@ def run_haplotag(
                 read_to_haplotype = None
 
             assert not include_unmapped or len(regions) == 1
-            for start, end in regions:
+            for region_index, (start, end) in enumerate(regions):
                 logger.debug("Working on %s:%s-%s", chrom, start, end)
                 for alignment in bam_reader.fetch(contig=chrom, start=start, stop=end):
+                    if overlaps_any_region(alignment, regions[:region_index]):
+                        # The alignment has already been written when an earlier region
+                        # on this chromosome was processed
+                        continue
                     n_alignments += 1
                     haplotype_name = "none"
                     phaseset = "none"
